@@ -60,6 +60,23 @@ pub struct Shim {
     /// really freed on release (no arena, guards or quarantine). Used when the engine itself runs
     /// under Miri, which then sees the bounds and lifetime of every block.
     pub system: bool,
+    /// `LSVERIF_SHIM=pageguard`: every block is its own mapping whose end (rounded up to the
+    /// alignment) touches an inaccessible page, and a released block becomes inaccessible as a
+    /// whole. An out-of-bounds or dangling *read* - which leaves no trace the shadow heap could
+    /// audit - then kills the process, and crash-trace mode pins it on the case.
+    pub pageguard: bool,
+}
+
+mod sys {
+    unsafe extern "C" {
+        pub fn mmap(addr: *mut u8, len: usize, prot: i32, flags: i32, fd: i32, off: i64) -> *mut u8;
+        pub fn mprotect(addr: *mut u8, len: usize, prot: i32) -> i32;
+        pub fn munmap(addr: *mut u8, len: usize) -> i32;
+    }
+    pub const PROT_NONE: i32 = 0;
+    pub const PROT_RW: i32 = 3;
+    pub const MAP_PRIVATE_ANON: i32 = 0x22;
+    pub const PAGE: usize = 4096;
 }
 
 thread_local! {
@@ -90,14 +107,20 @@ impl Shim {
             trace: false,
             trace_log: Vec::new(),
             system: std::env::var("LSVERIF_SHIM").is_ok_and(|v| v == "system"),
+            pageguard: std::env::var("LSVERIF_SHIM").is_ok_and(|v| v == "pageguard"),
         }
     }
 
     /// Forget everything: start of a new execution.
     pub fn reset(&mut self) {
         let system = self.system;
+        let pageguard = self.pageguard;
         for b in self.blocks.drain(..) {
-            if system {
+            if pageguard {
+                if let Some((raw, raw_size)) = b.big {
+                    unsafe { sys::munmap(raw as *mut u8, raw_size) };
+                }
+            } else if system {
                 if b.live {
                     unsafe { std::alloc::dealloc(b.base as *mut u8, Layout::from_size_align(b.size, b.align).unwrap()) }
                 }
@@ -140,6 +163,24 @@ impl Shim {
     }
 
     fn carve(&mut self, layout: Layout) -> *mut u8 {
+        if self.pageguard {
+            let align = layout.align().max(8);
+            let padded = layout.size().div_ceil(align) * align;
+            let body = padded.div_ceil(sys::PAGE).max(1) * sys::PAGE;
+            let total = body + sys::PAGE;
+            let raw = unsafe { sys::mmap(std::ptr::null_mut(), total, sys::PROT_RW, sys::MAP_PRIVATE_ANON, -1, 0) };
+            assert!(raw as isize != -1 && !raw.is_null(), "shim: mmap failed");
+            unsafe { sys::mprotect(raw.add(body), sys::PAGE, sys::PROT_NONE) };
+            // the block ends (up to alignment padding) where the inaccessible page begins
+            let user = unsafe { raw.add(body - padded) };
+            unsafe {
+                std::ptr::write_bytes(raw, FILL_GUARD, body - padded);
+                std::ptr::write_bytes(user, FILL_FRESH, layout.size());
+                std::ptr::write_bytes(user.add(layout.size()), FILL_GUARD, padded - layout.size());
+            }
+            self.blocks.push(Block { base: user as usize, size: layout.size(), align: layout.align(), live: true, big: Some((raw as usize, total)) });
+            return user;
+        }
         if self.system {
             let p = unsafe { std::alloc::alloc(layout) };
             assert!(!p.is_null());
@@ -213,7 +254,12 @@ impl Shim {
                     ));
                 }
                 self.blocks[i].live = false;
-                if self.system {
+                if self.pageguard {
+                    // quarantined and inaccessible: any later access through a stale pointer dies
+                    if let Some((raw, total)) = self.blocks[i].big {
+                        unsafe { sys::mprotect(raw as *mut u8, total, sys::PROT_NONE) };
+                    }
+                } else if self.system {
                     unsafe { std::alloc::dealloc(p, Layout::from_size_align(self.blocks[i].size, self.blocks[i].align).unwrap()) };
                 } else {
                     unsafe { std::ptr::write_bytes(p, FILL_FREED, self.blocks[i].size) };
@@ -233,7 +279,7 @@ impl Shim {
     /// Guard zones of every block and poison of every freed block must be intact.
     pub fn audit(&self) -> Vec<String> {
         let mut e = Vec::new();
-        if self.system {
+        if self.system || self.pageguard {
             return e;
         }
         for (i, b) in self.blocks.iter().enumerate() {
